@@ -67,7 +67,7 @@ func genC04(t *rapid.T) any {
 		for j := 0; j < n; j++ {
 			l := fmt.Sprintf("k%d.p%d", i, j)
 			if kind == "int" {
-				pool = append(pool, rapid.SampledFrom([]float64{1, 2, 3, 10, -1, 0}).Draw(t, l))
+				pool = append(pool, rapid.SampledFrom([]float64{1, 2, 3, 10, -1, 0, 1000000, 2147483648}).Draw(t, l))
 			} else {
 				pool = append(pool, rapid.SampledFrom(dashStrs).Draw(t, l))
 			}
